@@ -87,7 +87,7 @@ def phf_units(r, n, spec_by_unit, prefix="P"):
     for i in range(n):
         s = strgen.build(r, "%s%d" % (prefix, i), ["EnumString"], fieldless=True, naming_bias=0.75, max_n=8, capture_types=["String", "BoxStr"])
         s.use_phf = True
-        u = shards.Unit("u_" + s.name.lower(), glue(s), meta={"enum_src": s.render()}, sig="phf," + s.signature(), head=strgen.CAPTURE_HEAD)
+        u = shards.Unit("u_" + s.name.lower(), glue(s), meta={"enum_src": s.render(), "bare_src": s.render_bare()}, sig="phf," + s.signature(), head=strgen.CAPTURE_HEAD)
         units.append(u)
         spec_by_unit[u.name] = s
     return units
@@ -108,7 +108,7 @@ def check(run):
         if any(v.default and not v.disabled for v in s.variants) and r.random() < 0.15:
             # custom error attributes next to a catch-all variant: no error can occur, both impls keep strum::ParseError
             s.parse_err = ("MyErr", "my_err")
-        u = shards.Unit("u_" + s.name.lower(), glue(s), meta={"enum_src": s.render()}, sig=s.signature(), head=(strgen.CAPTURE_HEAD, c18.ERR_HEAD))
+        u = shards.Unit("u_" + s.name.lower(), glue(s), meta={"enum_src": s.render(), "bare_src": s.render_bare()}, sig=s.signature(), head=(strgen.CAPTURE_HEAD, c18.ERR_HEAD))
         units.append(u)
         spec_by_unit[u.name] = s
     run.rule = RULE
